@@ -7,6 +7,6 @@ h['obligations'] = ['a block is activated (setState true / comparePopScore < 0) 
                     'a block with a rule-breaking payload (symbolic placement: endorsed on another fork / expired / unknown block of proof / unconnected SP header / failing command) ends BLOCK_FAILED_POP, all descendants failed, setState false, comparePopScore never negative']
 _rp = _ilu.spec_from_file_location('realspec', os.path.join(os.path.dirname(os.path.abspath(__file__)), '..', 'real', 'spec.py'))
 _real = _ilu.module_from_spec(_rp); _rp.loader.exec_module(_real)
-HARNESSES = [h] + copy.deepcopy(_real.HARNESSES)
+HARNESSES = [h] + copy.deepcopy(_real.HARNESSES + _real.CTX_HARNESSES)
 EXPLANATION = _c02.EXPLANATION
 ASSUMPTIONS = _real.ASSUMPTIONS + _c02.ASSUMPTIONS + ['CheckPublicationData (context info vs endorsed block), VTB/BTC-context rules of VbkBlockTree::addPayloads and the stateful duplicate check of AltBlockTree are not covered by the toy']
